@@ -1005,23 +1005,24 @@ impl Cpu {
     }
 
     // TODO: Remove unwraps
-    fn on_interrupt(&mut self, bus: &mut Bus, vector: u8) {
+    fn on_interrupt(&mut self, bus: &mut Bus, vector: u8) -> Result<(), CpuError> {
         let new_pcbp = bus
-            .read_word((0x8c + (4 * u32::from(vector))) as usize, AccessCode::AddressFetch)
-            .unwrap();
-        self.irq_push(bus, self.r[R_PCBP]).unwrap();
+            .read_word((0x8c + (4 * u32::from(vector))) as usize, AccessCode::AddressFetch)?;
+        self.irq_push(bus, self.r[R_PCBP])?;
 
         self.r[R_PSW] &= !(F_ISC | F_TM | F_ET);
         self.r[R_PSW] |= 1;
 
-        self.context_switch_1(bus, new_pcbp).unwrap();
-        self.context_switch_2(bus, new_pcbp).unwrap();
+        self.context_switch_1(bus, new_pcbp)?;
+        self.context_switch_2(bus, new_pcbp)?;
 
         self.r[R_PSW] &= !(F_ISC | F_TM | F_ET);
         self.r[R_PSW] |= 7 << 3;
         self.r[R_PSW] |= 3;
 
-        self.context_switch_3(bus).unwrap();
+        self.context_switch_3(bus)?;
+
+        Ok(())
     }
 
     #[allow(clippy::cognitive_complexity)]
@@ -1038,7 +1039,7 @@ impl Cpu {
                     &self.r[R_PSW],
                     (!val) & 0x3f
                 );
-                self.on_interrupt(bus, (!val) & 0x3f);
+                self.on_interrupt(bus, (!val) & 0x3f)?;
             }
         }
 
